@@ -32,7 +32,7 @@ def run(check):
     rng = random.Random(check.seed)
     runs = []
     # every single run of one or two roots, on one thread
-    kinds = ['ok', 'raise', 'ret', 'nested_ok', 'nested_raise']
+    kinds = ['ok', 'raise', 'ret', 'nested_ok', 'nested_raise', 'cleanup']
     singles = [[{'kind': k, 'd': d}] for k in kinds for d in (0, 1)]
     pairs = [[a[0], b[0]] for a in singles for b in singles]
     for roots in singles + pairs:
